@@ -19,7 +19,7 @@
    without directives (C08_roundtrip_partial).                                              *)
 From Coq Require Import String ZArith List Bool.
 From Knut Require Import Model.Bytes Model.Utf8 Model.UnicodeTables Model.Scanner Model.Parser
-  Model.SynPrinter Spec.SyntaxSpec Proofs.ScannerProofs Proofs.ParserProofs Spec.FormatSpec
+  Model.SynPrinter Spec.SyntaxSpec Proofs.ScannerProofs Proofs.ParserProofs Spec.FormatSpec Model.SynRender
   Proofs.FormatProofs.
 Import ListNotations.
 Open Scope Z_scope.
